@@ -21,6 +21,7 @@ structure Handshake where
   upgrade : Option Bytes := none
   wsVersion : Option Bytes := none
   accepted : Bool := false
+  malformed : Bool := false               -- `self.malformed`: a token-list header was not ASCII
 deriving Repr, DecidableEq
 
 def isAscii (b : Bytes) : Bool := b.all (fun c => c.toNat < 128)
@@ -33,10 +34,19 @@ def Handshake.scan (h : Handshake) : Headers → Except PyErr Handshake
   | [] => .ok h
   | (n, v) :: rest =>
     let name := Bytes.lower n
-    if name == "connection".b then do let t ← splitCommaHeader v; Handshake.scan { h with connectionTokens := some t } rest
-    else if name == "sec-websocket-extensions".b then do let t ← splitCommaHeader v; Handshake.scan { h with extensions := some t } rest
+    if name == "connection".b then
+      match splitCommaHeader v with
+      | .ok t => Handshake.scan { h with connectionTokens := some t } rest
+      | .error _ => Handshake.scan { h with malformed := true } rest          -- `except UnicodeDecodeError`
+    else if name == "sec-websocket-extensions".b then
+      match splitCommaHeader v with
+      | .ok t => Handshake.scan { h with extensions := some t } rest
+      | .error _ => Handshake.scan { h with malformed := true } rest
     else if name == "sec-websocket-key".b then Handshake.scan { h with key := some v } rest
-    else if name == "sec-websocket-protocol".b then do let t ← splitCommaHeader v; Handshake.scan { h with subprotocols := some t } rest
+    else if name == "sec-websocket-protocol".b then
+      match splitCommaHeader v with
+      | .ok t => Handshake.scan { h with subprotocols := some t } rest
+      | .error _ => Handshake.scan { h with malformed := true } rest
     else if name == "sec-websocket-version".b then Handshake.scan { h with wsVersion := some v } rest
     else if name == "upgrade".b then Handshake.scan { h with upgrade := some v } rest
     else Handshake.scan h rest
@@ -46,7 +56,8 @@ def Handshake.ofRequest (version : String) (hs : Headers) : Except PyErr Handsha
 
 /-- `Handshake.is_valid()`; `.error attributeError` is `self.upgrade.lower()` on `None` -/
 def Handshake.isValid (h : Handshake) : Except PyErr Bool :=
-  if h.version < "1.1" then .ok false
+  if h.malformed then .ok false
+  else if h.version < "1.1" then .ok false
   else
     let v13 := h.wsVersion == some "13".b
     if h.version = "1.1" then
@@ -111,8 +122,11 @@ inductive BufErr where | tooLarge | typeError
 deriving Repr, DecidableEq
 
 /-- `WebsocketBuffer.extend(event)`: the first fragment fixes the kind; writing the other kind raises TypeError.
-    The buffer keeps what was written when `FrameTooLargeError` is raised (nothing clears it). -/
+    The buffer keeps what was written when `FrameTooLargeError` is raised (nothing clears it); once it is over the
+    limit every further `extend` raises `FrameTooLargeError` again, whatever the kind. -/
 def Buffer.extend (b : Buffer) (p : Payload) : Buffer × Option BufErr :=
+  -- `if self.length > self.max_length: raise FrameTooLargeError()` before anything is written
+  if Guards.wsBufferCmp.eval b.length b.maxLength then (b, some .tooLarge) else
   let cur : Payload := match b.value with
     | some v => v
     | none => (match p with | .text _ => .text [] | .bytes _ => .bytes [])
@@ -151,7 +165,9 @@ inductive WsEv where
   | message (p : Payload) (finished : Bool)
   | ping (payload : Bytes)
   | pong (payload : Bytes)
-  | close (code : Nat)
+  | close (code : Nat)                   -- a close frame: the library has moved to REMOTE_CLOSING / CLOSED
+  | failed (code : Nat)                  -- `ParseFailed` (bad frame / bad UTF-8): a `CloseConnection(code)` event is
+                                         -- yielded but the connection state does NOT move
 deriving Repr, DecidableEq
 
 /-- the library's own transition when it yields a close event -/
@@ -198,7 +214,7 @@ structure S where
   response : Option (Option Nat × Option (List (HV × HV))) := none   -- `self.response` (status, headers) as given
   hasAppPut : Bool := false
   pingInterval : Bool := false
-  clientCloseCode : Option Nat := none   -- code of a close frame received from the client (ghost / fix field)
+  clientCloseCode : Option Nat := none   -- `self.client_close_code`: code of a client-initiated close (1005 = none given)
 deriving Repr, DecidableEq
 
 abbrev Out := S × List Ev × Option PyErr
@@ -332,8 +348,17 @@ def handleEvents (s : S) : List WsEv → S × List AppMsg × List Ev × Option P
     | .close code =>
       -- the library moved to REMOTE_CLOSING / CLOSED before yielding the event
       let c' := s.conn.map connRecvClose
-      let s0 := { s with conn := c', clientCloseCode := some code }
+      -- `self.client_close_code = int(event.code)` in the REMOTE_CLOSING branch (client-initiated close) only
+      let s0 := { s with conn := c', clientCloseCode := if c' = some .remoteClosing then some code else s.clientCloseCode }
       let (s1, e, err) := if c' = some .remoteClosing then sendWs s0 (.close code) else (s0, [], none)
+      match err with
+      | some x => (s1, [], e, some x)
+      | none => let (s2, a, e2, err2) := handleEvents s1 rest; (s2, a, e ++ [Ev.streamClosed] ++ e2, err2)
+    | .failed code =>
+      -- same branch of the code, but `self.connection.state` is whatever it was: no echo unless it already was
+      -- REMOTE_CLOSING (it never is: a client close is answered at once), then `StreamClosed`
+      let (s1, e, err) := if s.conn = some .remoteClosing then sendWs { s with clientCloseCode := some code } (.close code)
+                          else (s, [], none)
       match err with
       | some x => (s1, [], e, some x)
       | none => let (s2, a, e2, err2) := handleEvents s1 rest; (s2, a, e ++ [Ev.streamClosed] ++ e2, err2)
@@ -346,7 +371,7 @@ def handle (s : S) : In → S × List AppMsg × List Ev × Option PyErr
         if !s.hs.accepted then ({ s with closed := true }, [], errorResponse 400, none)
         else handleEvents s evs
       | .streamClosed =>
-        let code := if s.st = .httpClosed ∨ s.st = .closed then 1000 else 1006
+        let code := if s.st = .httpClosed ∨ s.st = .closed then 1000 else s.clientCloseCode.getD 1006
         ({ s with closed := true }, if s.hasAppPut then [.disconnect code] else [], [], none)
 
 /-- the `Request` event: build the stream, answer 404/400 or spawn the application and put `websocket.connect` -/
